@@ -2,6 +2,7 @@ package main
 
 import (
 	"fmt"
+	"os"
 	"sort"
 )
 
@@ -14,5 +15,16 @@ func cmdFinal(args []string) {
 	sort.Strings(ks)
 	for _, k := range ks {
 		fmt.Println(k)
+	}
+}
+
+func cmdDump(args []string) {
+	w := mustLoad("/repo")
+	for _, k := range args {
+		if f := w.funcs[k]; f != nil {
+			f.WriteTo(os.Stdout)
+		} else {
+			fmt.Println("not found:", k)
+		}
 	}
 }
